@@ -53,6 +53,8 @@ pub enum Migrated {
     OldParserRejects(String),
     /// the command stops because the current parser rejects the migrator's text
     MigratedTextRejected { raw: String, error: String },
+    /// pass 1 or the formatter panicked on the migrated text
+    LaterStagePanics,
     /// what the command leaves in the file (== input when nothing is written)
     Written { raw: String, out: String },
 }
@@ -83,14 +85,22 @@ pub fn migrate_like_cli(input: &str, md: &Metadata) -> Migrated {
             };
         }
     };
-    let analyzer = Analyzer::new(md);
-    let _ = analyzer.analyze_pass1(&md.project.name, &parser.veryl);
-    let mut formatter = Formatter::new(md);
-    formatter.format(&parser.veryl, &raw);
-    let out = formatter.as_str().to_string();
-    analyzer.clear();
-    // `pass = input == formatted`; otherwise the file is overwritten with it
-    Migrated::Written { raw, out }
+    // A crash of pass 1 or of the formatter on the (parseable) migrated text is
+    // C11's business, not the migrator's.
+    let later = std::panic::catch_unwind(std::panic::AssertUnwindSafe(|| {
+        let analyzer = Analyzer::new(md);
+        let _ = analyzer.analyze_pass1(&md.project.name, &parser.veryl);
+        let mut formatter = Formatter::new(md);
+        formatter.format(&parser.veryl, &raw);
+        let out = formatter.as_str().to_string();
+        analyzer.clear();
+        out
+    }));
+    match later {
+        // `pass = input == formatted`; otherwise the file is overwritten with it
+        Ok(out) => Migrated::Written { raw, out },
+        Err(_) => Migrated::LaterStagePanics,
+    }
 }
 
 // ---------------------------------------------------------------------------
@@ -292,123 +302,188 @@ fn gen_scalar_type(d: &mut Draw) -> Vec<&'static str> {
     v
 }
 
+#[derive(Clone, Copy, PartialEq, Eq, Debug)]
+enum Role {
+    /// stays
+    Keep,
+    /// token of a `: ScalarType` annotation: must vanish
+    Annotation,
+    /// comment placed after the `:` / inside / after the type of an annotation
+    InsideAnnotation,
+}
+
+#[derive(Clone)]
 pub struct OldCase {
     pub text: String,
     pub expect_tokens: Vec<String>,
-    pub expect_comments: Vec<String>,
+    /// (normalised comment, sits inside a removed annotation)
+    pub expect_comments: Vec<(String, bool)>,
     pub annotations: usize,
     pub planted: usize,
-    pub comment_inside_annotation: bool,
     /// an annotated `for` shares a line with a comment or multi-byte text
     pub for_line_has_comment_or_multibyte: bool,
+    pub risky_multibyte: bool,
+    /// a string literal uses an escape only the previous grammar knows (`\\/`, `\\b`, `\\r`)
+    pub old_escape: bool,
 }
 
-fn maybe_comment(d: &mut Draw, num: u32, den: u32, multibyte: bool, out: &mut Vec<(Piece, bool)>) -> bool {
-    if d.chance(num, den) {
-        let c = relayout::gen_comment(d, multibyte);
-        out.push((c, false));
-        true
-    } else {
-        false
-    }
+fn ascii_only(s: &str) -> String {
+    s.chars().map(|c| if c.is_ascii() { c } else { 'x' }).collect()
 }
 
-/// Rewrite `base` (current syntax) into the previous syntax.  The bool of each
-/// piece says "belongs to a `: ScalarType` annotation" (expected to vanish).
+/// Rewrite `base` (current syntax) into the previous syntax.
 fn gen_old_case(d: &mut Draw, base: &str) -> Option<OldCase> {
     let (pieces, sites) = pieces_with_sites(base)?;
     let mut lo = LayoutOpts::draw(d);
-    // comments are placed here (their order must be known), not by relayout()
+    // comments are placed here (their order and place must be known), not by relayout()
     let inject = std::mem::replace(&mut lo.inject_per_mille, 0);
     let leading = std::mem::replace(&mut lo.leading_comment, false);
     let keep = std::mem::replace(&mut lo.keep_comments, true);
     if d.chance(1, 2) {
         lo.multibyte = true;
     }
+    // Listed findings are kept reachable at a low rate and excluded by
+    // construction otherwise:
+    //  * multi-byte text followed by more tokens on its line (blanks are
+    //    swallowed): unless `risky_multibyte`, multi-byte text only goes into
+    //    line comments (nothing follows them on their line);
+    //  * comments inside the removed annotation (dropped): only if `inside_ok`.
+    let risky_multibyte = d.chance(1, 8);
+    let inside_ok = d.chance(1, 8);
     let annotate = !d.chance(1, 10); // sometimes leave the text in the current syntax
-    let plant_per_mille = *d.pick(&[0u32, 300, 1000]);
+    let plant_per_mille = [0u32, 300, 1000][d.weighted(&[1, 4, 3])];
     let around = *d.pick(&[(1u32, 3u32), (0, 1), (1, 1), (1, 8)]);
-    let mut seq: Vec<(Piece, bool)> = Vec::new();
+    // a file without a for statement gets at least one planted loop
+    let forced_site: Option<usize> = if annotate && sites.for_idents.is_empty() && !sites.block_braces.is_empty() {
+        Some(sites.block_braces[d.below_usize(sites.block_braces.len())])
+    } else {
+        None
+    };
+    // Listed finding kept at a low rate: a string escape that only the
+    // previous grammar accepts, in a planted `$display("…");`
+    let old_escape_site: Option<usize> = if annotate && !sites.block_braces.is_empty() && d.chance(1, 30) {
+        Some(sites.block_braces[d.below_usize(sites.block_braces.len())])
+    } else {
+        None
+    };
+    let multibyte = lo.multibyte;
+    let comment = |d: &mut Draw| -> Piece {
+        let mut c = relayout::gen_comment(d, multibyte);
+        if !risky_multibyte && c.kind == PieceKind::BlockComment {
+            c.text = ascii_only(&c.text);
+        }
+        c
+    };
+    let maybe = |d: &mut Draw, num: u32, den: u32, role: Role, seq: &mut Vec<(Piece, Role)>| {
+        if d.chance(num, den.max(1)) {
+            let c = comment(d);
+            seq.push((c, role));
+        }
+    };
+    let mut seq: Vec<(Piece, Role)> = Vec::new();
     if leading {
-        seq.push((relayout::gen_comment(d, lo.multibyte), false));
+        seq.push((comment(d), Role::Keep));
     }
     let mut annotations = 0;
     let mut planted = 0;
-    let mut inside = false;
-    let annotation = |d: &mut Draw, seq: &mut Vec<(Piece, bool)>, inside: &mut bool| {
-        // [c] : [c] Type… [c]   — a comment after the loop variable belongs
-        // to it; the ones after `:` and after the type sit inside the annotation
-        maybe_comment(d, around.0, around.1.max(1), lo.multibyte, seq);
-        seq.push((tok(":"), true));
-        *inside |= maybe_comment(d, around.0, around.1.max(1), lo.multibyte, seq);
+    let annotation = |d: &mut Draw, seq: &mut Vec<(Piece, Role)>| {
+        // v [c] : [c] Type… [c] in — a comment after the loop variable belongs
+        // to it; the ones after `:` and in / after the type sit inside the annotation
+        maybe(d, around.0, around.1, Role::Keep, seq);
+        seq.push((tok(":"), Role::Annotation));
+        if inside_ok {
+            maybe(d, around.0, around.1, Role::InsideAnnotation, seq);
+        }
         let ty = gen_scalar_type(d);
         let n = ty.len();
         for (k, t) in ty.into_iter().enumerate() {
-            seq.push((tok(t), true));
-            if k + 1 < n {
-                *inside |= maybe_comment(d, 1, 12, lo.multibyte, seq);
+            seq.push((tok(t), Role::Annotation));
+            if k + 1 < n && inside_ok {
+                maybe(d, 1, 12, Role::InsideAnnotation, seq);
             }
         }
-        *inside |= maybe_comment(d, around.0, around.1.max(1), lo.multibyte, seq);
+        if inside_ok {
+            maybe(d, around.0, around.1, Role::InsideAnnotation, seq);
+        }
     };
     for (p, pos) in &pieces {
-        match p.kind {
-            PieceKind::LineComment | PieceKind::BlockComment if !keep => continue,
-            _ => {}
+        let is_comment = matches!(p.kind, PieceKind::LineComment | PieceKind::BlockComment);
+        if is_comment && !keep {
+            continue;
         }
-        seq.push((p.clone(), false));
+        if is_comment && !risky_multibyte && p.kind == PieceKind::BlockComment && !p.text.is_ascii() {
+            let mut q = p.clone();
+            q.text = ascii_only(&q.text);
+            seq.push((q, Role::Keep));
+            continue;
+        }
+        seq.push((p.clone(), Role::Keep));
         if p.kind != PieceKind::Token {
             continue;
         }
         let Some(pos) = pos else { continue };
+        if old_escape_site == Some(*pos) {
+            let esc = *d.pick(&["\\/", "\\b", "\\r"]);
+            for t in ["$display", "("] {
+                seq.push((tok(t), Role::Keep));
+            }
+            seq.push((tok(&format!("\"a{esc}b\"")), Role::Keep));
+            for t in [")", ";"] {
+                seq.push((tok(t), Role::Keep));
+            }
+        }
         if annotate && sites.for_idents.contains(pos) {
-            annotation(d, &mut seq, &mut inside);
+            annotation(d, &mut seq);
             annotations += 1;
-        } else if annotate && plant_per_mille > 0 && sites.block_braces.contains(pos) && d.below(1000) < plant_per_mille {
+        } else if annotate
+            && sites.block_braces.contains(pos)
+            && (forced_site == Some(*pos) || (plant_per_mille > 0 && d.below(1000) < plant_per_mille))
+        {
             // plant `for v: T in [rev] a..b [step += c] { }` at the head of a statement block
-            seq.push((tok("for"), false));
-            maybe_comment(d, 1, 8, lo.multibyte, &mut seq);
-            seq.push((tok(*d.pick(&["i", "idx", "_k", "loop_var"])), false));
-            annotation(d, &mut seq, &mut inside);
-            seq.push((tok("in"), false));
+            seq.push((tok("for"), Role::Keep));
+            maybe(d, 1, 8, Role::Keep, &mut seq);
+            seq.push((tok(*d.pick(&["i", "idx", "_k", "loop_var"])), Role::Keep));
+            annotation(d, &mut seq);
+            seq.push((tok("in"), Role::Keep));
             if d.chance(1, 4) {
-                seq.push((tok("rev"), false));
+                seq.push((tok("rev"), Role::Keep));
             }
-            seq.push((tok(*d.pick(&["0", "1", "N"])), false));
+            seq.push((tok(*d.pick(&["0", "1", "N"])), Role::Keep));
             if !d.chance(1, 6) {
-                seq.push((tok(*d.pick(&["..", "..="])), false));
-                seq.push((tok(*d.pick(&["4", "10", "N", "32'd8"])), false));
+                seq.push((tok(*d.pick(&["..", "..="])), Role::Keep));
+                seq.push((tok(*d.pick(&["4", "10", "N", "32'd8"])), Role::Keep));
             }
             if d.chance(1, 4) {
-                seq.push((tok("step"), false));
-                seq.push((tok(*d.pick(&["+=", "*="])), false));
-                seq.push((tok("2"), false));
+                seq.push((tok("step"), Role::Keep));
+                seq.push((tok(*d.pick(&["+=", "*="])), Role::Keep));
+                seq.push((tok("2"), Role::Keep));
             }
-            seq.push((tok("{"), false));
-            maybe_comment(d, 1, 6, lo.multibyte, &mut seq);
-            seq.push((tok("}"), false));
+            seq.push((tok("{"), Role::Keep));
+            maybe(d, 1, 6, Role::Keep, &mut seq);
+            seq.push((tok("}"), Role::Keep));
             annotations += 1;
             planted += 1;
         } else if inject > 0 && d.below(1000) < inject && p.text != "{{{" {
-            seq.push((relayout::gen_comment(d, lo.multibyte), false));
+            seq.push((comment(d), Role::Keep));
         }
     }
     let plain: Vec<Piece> = seq.iter().map(|(p, _)| p.clone()).collect();
     let text = relayout::relayout(d, &plain, &lo);
     let expect_tokens = seq
         .iter()
-        .filter(|(p, ann)| !*ann && matches!(p.kind, PieceKind::Token | PieceKind::Verbatim))
+        .filter(|(p, r)| *r != Role::Annotation && matches!(p.kind, PieceKind::Token | PieceKind::Verbatim))
         .map(|(p, _)| p.text.clone())
         .collect();
     let expect_comments = seq
         .iter()
         .filter(|(p, _)| matches!(p.kind, PieceKind::LineComment | PieceKind::BlockComment))
-        .map(|(p, _)| norm_comment(&p.text))
+        .map(|(p, r)| (norm_comment(&p.text), *r == Role::InsideAnnotation))
         .collect();
-    // NT witness: a line holding `for` … `:` with a comment or multi-byte text
+    // NT witness: a line holding the `for` keyword with a comment or multi-byte text
     let for_line = text.lines().any(|l| {
-        let has_for = l.split(|c: char| !(c.is_alphanumeric() || c == '_')).any(|w| w == "for");
-        has_for && l.contains(':') && (l.contains("//") || l.contains("/*") || l.contains("*/") || !l.is_ascii())
+        let code = strip_comments(l);
+        let has_for = code.split(|c: char| !(c.is_alphanumeric() || c == '_')).any(|w| w == "for");
+        has_for && (l.contains("//") || l.contains("/*") || l.contains("*/") || !l.is_ascii())
     });
     Some(OldCase {
         text,
@@ -416,8 +491,9 @@ fn gen_old_case(d: &mut Draw, base: &str) -> Option<OldCase> {
         expect_comments,
         annotations,
         planted,
-        comment_inside_annotation: inside,
         for_line_has_comment_or_multibyte: for_line && annotations > 0,
+        risky_multibyte,
+        old_escape: old_escape_site.is_some(),
     })
 }
 
@@ -444,21 +520,18 @@ fn norm_tokens(toks: &[String]) -> Vec<String> {
     out
 }
 
-fn first_mismatch(a: &[String], b: &[String]) -> (usize, String) {
+fn first_mismatch(a: &[String], b: &[String]) -> String {
     for i in 0..a.len().max(b.len()) {
         if a.get(i) != b.get(i) {
             let lo = i.saturating_sub(3);
-            return (
-                i,
-                format!(
-                    "index {i}: expected {:?} vs result {:?}",
-                    &a[lo.min(a.len())..(i + 3).min(a.len())],
-                    &b[lo.min(b.len())..(i + 3).min(b.len())]
-                ),
+            return format!(
+                "index {i}: expected {:?} vs result {:?}",
+                &a[lo.min(a.len())..(i + 3).min(a.len())],
+                &b[lo.min(b.len())..(i + 3).min(b.len())]
             );
         }
     }
-    (0, "equal".into())
+    "equal".into()
 }
 
 fn clip(s: &str, n: usize) -> String {
@@ -467,167 +540,6 @@ fn clip(s: &str, n: usize) -> String {
         e -= 1;
     }
     s[..e].to_string()
-}
-
-/// Decide one old-syntax text against the tokens / comments its result must have.
-pub fn decide(case: &OldCase, o: &FmtOpts, origin: &str, mut classes: Vec<String>) -> Outcome {
-    let md = pipe::metadata(o);
-    let x = &case.text;
-    // precondition: the previous grammar accepts x (own thread: the old
-    // parser shares the current parser's thread-local tables)
-    let old_ok = pipe::on_fresh_thread(|| OldParser::parse(x, &Path::new("a.veryl")).is_ok());
-    if !old_ok {
-        return Outcome::skip("the previous grammar rejects the text (uses syntax added since, or a planted loop does not fit)");
-    }
-    let new_ok = pipe::on_fresh_thread(|| Parser::parse(x, &Path::new("a.veryl")).is_ok());
-    let res = pipe::on_fresh_thread(|| migrate_like_cli(x, &md));
-    let input = |raw: Option<&str>, out: Option<&str>| json!({"origin": origin, "format": o.describe(), "old_text": x, "migrator_text": raw, "written": out});
-    if new_ok {
-        // clause 4
-        classes.push("already_current_syntax".into());
-        return match res {
-            Migrated::Untouched => Outcome::pass(hash_str(x), false, classes, format!("// {origin} (already current syntax)\n{}", clip(x, 1200))),
-            Migrated::Written { raw, out } if out == *x => {
-                let _ = raw;
-                Outcome::pass(hash_str(x), false, classes, format!("// {origin} (already current syntax)\n{}", clip(x, 1200)))
-            }
-            Migrated::Written { raw, out } => Outcome::fail(
-                "current-syntax-text-changed",
-                format!("[{}] from {origin}: the current parser accepts the text, but `veryl migrate` rewrites it", o.describe()),
-                input(Some(&raw), Some(&out)),
-            ),
-            Migrated::OldParserRejects(e) | Migrated::MigratedTextRejected { error: e, .. } => Outcome::fail(
-                "current-syntax-text-fails",
-                format!("[{}] from {origin}: the current parser accepts the text, but `veryl migrate` fails: {}", o.describe(), clip(&e, 200)),
-                input(None, None),
-            ),
-        };
-    }
-    let (raw, out) = match res {
-        Migrated::Untouched => unreachable!("the current parser rejected the text"),
-        Migrated::OldParserRejects(_) => return Outcome::skip("old parser verdict changed between threads"),
-        Migrated::MigratedTextRejected { raw, error } => {
-            // root cause: which tokens did the migrator's spacing fuse / lose?
-            let sig = classify_raw(x, &raw);
-            return Outcome::fail(
-                format!("migrated-text-does-not-parse:{sig}"),
-                format!(
-                    "[{}] from {origin}: the previous grammar accepts the text, but the current parser rejects what the migrator produces ({}): {}",
-                    o.describe(),
-                    sig,
-                    clip(&error.replace('\n', " "), 300)
-                ),
-                input(Some(&raw), None),
-            );
-        }
-        Migrated::Written { raw, out } => (raw, out),
-    };
-    // clause 1 on the written text; the tokens and comments of it
-    let Some(pf) = pipe::on_fresh_thread(|| relayout::pieces(&out)) else {
-        return Outcome::fail(
-            "written-text-does-not-parse",
-            format!("[{}] from {origin}: the current parser rejects the text `veryl migrate` writes", o.describe()),
-            input(Some(&raw), Some(&out)),
-        );
-    };
-    let got_tokens: Vec<String> = pf
-        .iter()
-        .filter(|p| matches!(p.kind, PieceKind::Token | PieceKind::Verbatim))
-        .map(|p| p.text.clone())
-        .collect();
-    let got_comments: Vec<String> = pf
-        .iter()
-        .filter(|p| matches!(p.kind, PieceKind::LineComment | PieceKind::BlockComment))
-        .map(|p| norm_comment(&p.text))
-        .collect();
-    let (et, gt) = (norm_tokens(&case.expect_tokens), norm_tokens(&got_tokens));
-    if et != gt {
-        let (_, at) = first_mismatch(&et, &gt);
-        let sig = if gt.len() > et.len() {
-            "token-sequence:extra-tokens"
-        } else if gt.len() < et.len() {
-            "token-sequence:tokens-lost"
-        } else {
-            "token-sequence:tokens-changed"
-        };
-        return Outcome::fail(
-            sig,
-            format!("[{}] from {origin}: result tokens are not the input's minus the for-loop annotations: {at}", o.describe()),
-            input(Some(&raw), Some(&out)),
-        );
-    }
-    if case.expect_comments != got_comments {
-        let (i, at) = first_mismatch(&case.expect_comments, &got_comments);
-        // is the first missing comment one that sat inside a removed annotation?
-        let missing = case.expect_comments.get(i).cloned().unwrap_or_default();
-        let sig = if got_comments.len() < case.expect_comments.len() {
-            if comment_is_inside_annotation(x, &missing) {
-                "comment-lost:inside-removed-annotation"
-            } else {
-                "comment-lost:elsewhere"
-            }
-        } else if got_comments.len() > case.expect_comments.len() {
-            "comment-duplicated"
-        } else {
-            "comment-changed"
-        };
-        return Outcome::fail(
-            sig,
-            format!("[{}] from {origin}: comments are not kept in order: {at}", o.describe()),
-            input(Some(&raw), Some(&out)),
-        );
-    }
-    if case.comment_inside_annotation {
-        classes.push("comment_inside_annotation".into());
-    }
-    if case.planted > 0 {
-        classes.push("planted_for".into());
-    }
-    if case.annotations > case.planted {
-        classes.push("corpus_for_annotated".into());
-    }
-    if !x.is_ascii() {
-        classes.push("multibyte".into());
-    }
-    if x.contains("\r\n") {
-        classes.push("crlf".into());
-    }
-    if case.for_line_has_comment_or_multibyte {
-        classes.push("for_line_with_comment_or_multibyte".into());
-    }
-    classes.push(format!("annotations:{}", match case.annotations { 0 => "0", 1 => "1", 2..=4 => "2-4", _ => "5+" }));
-    Outcome::pass(
-        hash_str(&format!("{}|{}", o.describe(), x)),
-        case.annotations > 0 && case.for_line_has_comment_or_multibyte,
-        classes,
-        format!("// {origin} [{}] annotations={}\n{}", o.describe(), case.annotations, clip(x, 1500)),
-    )
-}
-
-/// Does `comment` (normalised) occur in `x` between the `:` of a for-loop
-/// annotation and the `in` that follows it?  Textual heuristic used only to
-/// name the root cause of a failure that is already established.
-fn comment_is_inside_annotation(x: &str, comment: &str) -> bool {
-    let first_line = comment.lines().next().unwrap_or("");
-    if first_line.is_empty() {
-        return false;
-    }
-    let mut from = 0;
-    while let Some(p) = x[from..].find(first_line) {
-        let at = from + p;
-        // look backwards for `for <ident> … :` without a `{`, `;` or `in` word in between
-        let before = &x[..at];
-        if let Some(f) = before.rfind("for") {
-            let between = strip_comments(&before[f + 3..]);
-            let has_colon = between.contains(':');
-            let closed = between.contains('{') || between.contains(';') || between.split_whitespace().any(|w| w == "in");
-            if has_colon && !closed {
-                return true;
-            }
-        }
-        from = at + first_line.len();
-    }
-    false
 }
 
 fn strip_comments(s: &str) -> String {
@@ -658,17 +570,296 @@ fn strip_comments(s: &str) -> String {
     out
 }
 
-/// Root-cause class of a migrator text the current parser rejects, from the
-/// two texts alone: the migrator rebuilds the spacing from token columns
-/// (counted in characters) while advancing its own column by bytes, so after
-/// multi-byte text on a line the blanks between later tokens are swallowed.
-fn classify_raw(x: &str, raw: &str) -> &'static str {
-    let fused_after_multibyte = raw.lines().any(|l| !l.is_ascii());
-    if !x.is_ascii() && fused_after_multibyte {
-        "multibyte-text-on-a-line"
-    } else {
-        "ascii-text"
+const K_INSIDE: &str = "comment-lost:inside-removed-annotation";
+const K_EMBED: &str = "embed-content:blanks-inserted-after-multiline-chunk";
+const K_MULTIBYTE: &str = "multibyte-text:blanks-swallowed-on-the-line";
+const K_ESCAPE: &str = "string-escape-of-the-previous-grammar-kept";
+const KNOWN: &[&str] = &[K_INSIDE, K_EMBED, K_MULTIBYTE, K_ESCAPE];
+
+pub struct Issue {
+    pub sig: String,
+    pub msg: String,
+}
+
+/// What `veryl migrate` did with an old-syntax text that the current parser
+/// rejects, against the expectation.  Empty = the property holds on the case.
+/// The listed root causes are recognised exactly (not by resemblance) and do
+/// not stop the evaluation of the other clauses.
+fn evaluate(case: &OldCase, res: &Migrated) -> Vec<Issue> {
+    let mut issues = Vec::new();
+    let out = match res {
+        Migrated::Untouched => {
+            issues.push(Issue {
+                sig: "harness:current-parser-verdict-changed".into(),
+                msg: "the current parser rejected the text, then accepted it".into(),
+            });
+            return issues;
+        }
+        Migrated::OldParserRejects(e) => {
+            issues.push(Issue {
+                sig: "harness:old-parser-verdict-changed".into(),
+                msg: clip(e, 200),
+            });
+            return issues;
+        }
+        Migrated::LaterStagePanics => {
+            issues.push(Issue {
+                sig: "harness:later-stage-panics-on-the-ascii-twin".into(),
+                msg: "pass 1 / the formatter panics".into(),
+            });
+            return issues;
+        }
+        Migrated::MigratedTextRejected { error, .. } => {
+            issues.push(Issue {
+                sig: "migrated-text-does-not-parse".into(),
+                msg: format!(
+                    "the previous grammar accepts the text, but the current parser rejects what the migrator produces, so the command fails: {}",
+                    clip(&error.replace('\n', " "), 300)
+                ),
+            });
+            return issues;
+        }
+        Migrated::Written { out, .. } => out,
+    };
+    let Some(pf) = pipe::on_fresh_thread(|| relayout::pieces(out)) else {
+        issues.push(Issue {
+            sig: "written-text-does-not-parse".into(),
+            msg: "the current parser rejects the text `veryl migrate` writes".into(),
+        });
+        return issues;
+    };
+    let got_tokens: Vec<String> = pf
+        .iter()
+        .filter(|p| matches!(p.kind, PieceKind::Token | PieceKind::Verbatim))
+        .map(|p| p.text.clone())
+        .collect();
+    let got_comments: Vec<String> = pf
+        .iter()
+        .filter(|p| matches!(p.kind, PieceKind::LineComment | PieceKind::BlockComment))
+        .map(|p| norm_comment(&p.text))
+        .collect();
+    let (mut et, mut gt) = (norm_tokens(&case.expect_tokens), norm_tokens(&got_tokens));
+    if case.old_escape {
+        // how a migration should spell `\/` in the current syntax is not ours to
+        // say: string literals only have to stay string literals
+        for t in et.iter_mut().chain(gt.iter_mut()) {
+            if t.starts_with('"') {
+                *t = "\"…\"".to_string();
+            }
+        }
     }
+    if et != gt {
+        // the same sequence except that blanks were inserted into embedded code?
+        let squeeze = |s: &str| s.chars().filter(|c| *c != ' ').collect::<String>();
+        let embed_only = et.len() == gt.len()
+            && et.iter().zip(&gt).all(|(a, b)| a == b || (a.contains('\n') && squeeze(a) == squeeze(b) && b.len() > a.len()));
+        if embed_only {
+            issues.push(Issue {
+                sig: K_EMBED.into(),
+                msg: format!("the text of an embedded code block ({{{{{{ … }}}}}}) is changed (blanks inserted): {}", first_mismatch(&et, &gt)),
+            });
+        } else {
+            let sig = if gt.len() > et.len() {
+                "token-sequence:extra-tokens"
+            } else if gt.len() < et.len() {
+                "token-sequence:tokens-lost"
+            } else {
+                "token-sequence:tokens-changed"
+            };
+            issues.push(Issue {
+                sig: sig.into(),
+                msg: format!("result tokens are not the input's minus the for-loop annotations: {}", first_mismatch(&et, &gt)),
+            });
+        }
+    }
+    let all: Vec<String> = case.expect_comments.iter().map(|(c, _)| c.clone()).collect();
+    if all != got_comments {
+        let outside: Vec<String> = case.expect_comments.iter().filter(|(_, i)| !*i).map(|(c, _)| c.clone()).collect();
+        if outside == got_comments {
+            let lost: Vec<&String> = case.expect_comments.iter().filter(|(_, i)| *i).map(|(c, _)| c).collect();
+            issues.push(Issue {
+                sig: K_INSIDE.into(),
+                msg: format!(
+                    "the {} comment(s) between the `:` of a for-loop annotation and the following `in` are dropped (all others are kept): {:?}",
+                    lost.len(),
+                    lost.iter().take(3).collect::<Vec<_>>()
+                ),
+            });
+        } else {
+            let sig = if got_comments.len() < all.len() {
+                "comment-lost:outside-the-annotation"
+            } else if got_comments.len() > all.len() {
+                "comment-duplicated"
+            } else {
+                "comment-changed"
+            };
+            issues.push(Issue {
+                sig: sig.into(),
+                msg: format!("comments are not kept in order: {}", first_mismatch(&all, &got_comments)),
+            });
+        }
+    }
+    issues
+}
+
+fn asciified(case: &OldCase) -> OldCase {
+    let mut c = case.clone();
+    c.text = ascii_only(&c.text);
+    c.expect_tokens = c.expect_tokens.iter().map(|t| ascii_only(t)).collect();
+    c.expect_comments = c.expect_comments.iter().map(|(t, i)| (ascii_only(t), *i)).collect();
+    c
+}
+
+/// The case with the escapes `\/`, `\b`, `\r` (previous grammar only) replaced
+/// by `\\` (both grammars, same length) in its string literals.
+fn escapes_neutralised(case: &OldCase) -> OldCase {
+    let fix = |s: &str| s.replace("\\/", "\\\\").replace("\\b", "\\\\").replace("\\r", "\\\\");
+    let mut c = case.clone();
+    // only the planted literal "a\?b" carries such an escape
+    for e in ["\\/", "\\b", "\\r"] {
+        let lit = format!("\"a{e}b\"");
+        c.text = c.text.replace(&lit, &fix(&lit));
+        for t in c.expect_tokens.iter_mut() {
+            if *t == lit {
+                *t = fix(&lit);
+            }
+        }
+    }
+    c
+}
+
+/// Decide one old-syntax text against the tokens / comments its result must have.
+pub fn decide(case: &OldCase, o: &FmtOpts, origin: &str, mut classes: Vec<String>) -> Outcome {
+    let md = pipe::metadata(o);
+    let x = &case.text;
+    // precondition: the previous grammar accepts x (own thread: the old
+    // parser shares the current parser's thread-local tables)
+    let old_ok = pipe::on_fresh_thread(|| OldParser::parse(x, &Path::new("a.veryl")).is_ok());
+    if !old_ok {
+        return Outcome::skip("the previous grammar rejects the text (the file uses syntax added since)");
+    }
+    let new_ok = pipe::on_fresh_thread(|| Parser::parse(x, &Path::new("a.veryl")).is_ok());
+    let res = pipe::on_fresh_thread(|| migrate_like_cli(x, &md));
+    if matches!(res, Migrated::LaterStagePanics) {
+        return Outcome::skip("pass 1 / the formatter panics on the migrated text (left to C11)");
+    }
+    let (raw, out) = match &res {
+        Migrated::Written { raw, out } => (Some(raw.clone()), Some(out.clone())),
+        Migrated::MigratedTextRejected { raw, .. } => (Some(raw.clone()), None),
+        _ => (None, None),
+    };
+    let input = json!({"origin": origin, "format": o.describe(), "old_text": x, "migrator_text": raw, "written": out,
+        "expect_tokens": case.expect_tokens,
+        "expect_comments": case.expect_comments.iter().map(|(c, _)| c.clone()).collect::<Vec<_>>(),
+        "inside_annotation": case.expect_comments.iter().map(|(_, i)| *i).collect::<Vec<_>>()});
+    if new_ok {
+        // clause 4
+        classes.push("already_current_syntax".into());
+        let sample = format!("// {origin} (already current syntax)\n{}", clip(x, 1200));
+        return match res {
+            Migrated::Untouched => Outcome::pass(hash_str(x), false, classes, sample),
+            Migrated::Written { out, .. } if out == *x => Outcome::pass(hash_str(x), false, classes, sample),
+            Migrated::Written { .. } => Outcome::fail(
+                "current-syntax-text-changed",
+                format!("[{}] from {origin}: the current parser accepts the text, but `veryl migrate` rewrites it", o.describe()),
+                input,
+            ),
+            Migrated::LaterStagePanics => Outcome::skip("pass 1 / the formatter panics (left to C11)"),
+            Migrated::OldParserRejects(e) | Migrated::MigratedTextRejected { error: e, .. } => Outcome::fail(
+                "current-syntax-text-fails",
+                format!("[{}] from {origin}: the current parser accepts the text, but `veryl migrate` fails: {}", o.describe(), clip(&e, 200)),
+                input,
+            ),
+        };
+    }
+    let issues = evaluate(case, &res);
+    let report = |i: &Issue| Outcome::fail(i.sig.clone(), format!("[{}] from {origin}: {}", o.describe(), i.msg), input.clone());
+    let unknown = |v: &[Issue]| v.iter().position(|i| !KNOWN.contains(&i.sig.as_str()));
+    if let Some(u) = unknown(&issues) {
+        // Differential classification against the listed root causes: the
+        // same case with (a) the previous-grammar-only string escapes replaced
+        // by `\\\\`, (b) every non-ASCII character replaced by an ASCII one (same
+        // character columns, other byte lengths).  If the property holds on
+        // such a twin (listed findings aside), that difference is the cause.
+        let run = |c: &OldCase| {
+            let r = pipe::on_fresh_thread(|| migrate_like_cli(&c.text, &md));
+            unknown(&evaluate(c, &r)).is_none()
+        };
+        let esc = if case.old_escape { Some(escapes_neutralised(case)) } else { None };
+        let asc = if !x.is_ascii() { Some(asciified(case)) } else { None };
+        let why_esc = "the string literal uses an escape that only the previous grammar accepts and the migrator copies it unchanged";
+        let why_mb = "the same text with its multi-byte characters replaced by ASCII ones migrates correctly: the migrator rebuilds the blanks from character columns while advancing its own column by bytes, so blanks after multi-byte text on a line are swallowed and tokens fuse";
+        if let Some(c) = &esc
+            && run(c)
+        {
+            return report(&Issue {
+                sig: K_ESCAPE.into(),
+                msg: format!("{} — {why_esc}", issues[u].msg),
+            });
+        }
+        if let Some(c) = &asc
+            && run(c)
+        {
+            return report(&Issue {
+                sig: K_MULTIBYTE.into(),
+                msg: format!("{} — and {why_mb}", issues[u].msg),
+            });
+        }
+        if let (Some(c), Some(_)) = (&esc, &asc)
+            && run(&asciified(c))
+        {
+            return report(&Issue {
+                sig: K_MULTIBYTE.into(),
+                msg: format!("{} — two listed root causes at once: {why_esc}; and {why_mb}", issues[u].msg),
+            });
+        }
+        return report(&issues[u]);
+    }
+    if let Some(i) = issues.first() {
+        return report(i);
+    }
+    if case.expect_comments.iter().any(|(_, i)| *i) {
+        classes.push("comment_inside_annotation".into());
+    }
+    if case.planted > 0 {
+        classes.push("planted_for".into());
+    }
+    if case.annotations > case.planted {
+        classes.push("corpus_for_annotated".into());
+    }
+    if !x.is_ascii() {
+        classes.push("multibyte".into());
+    }
+    if case.risky_multibyte {
+        classes.push("multibyte_anywhere".into());
+    }
+    if x.contains("\r\n") {
+        classes.push("crlf".into());
+    }
+    if x.contains("{{{") {
+        classes.push("embed".into());
+    }
+    if case.old_escape {
+        classes.push("old_string_escape".into());
+    }
+    if case.for_line_has_comment_or_multibyte {
+        classes.push("for_line_with_comment_or_multibyte".into());
+    }
+    classes.push(format!(
+        "annotations:{}",
+        match case.annotations {
+            0 => "0",
+            1 => "1",
+            2..=4 => "2-4",
+            _ => "5+",
+        }
+    ));
+    Outcome::pass(
+        hash_str(&format!("{}|{}", o.describe(), x)),
+        case.annotations > 0 && case.for_line_has_comment_or_multibyte,
+        classes,
+        format!("// {origin} [{}] annotations={}\n{}", o.describe(), case.annotations, clip(x, 1500)),
+    )
 }
 
 // ---------------------------------------------------------------------------
@@ -678,32 +869,46 @@ pub fn run(ctx: &Ctx) {
 
     // sub: explicit old-syntax texts (reproducers of listed findings)
     ctx.run_payloads("text", |p| {
-        let text = p.get("old_text").and_then(|t| t.as_str()).unwrap_or("").to_string();
-        let expect_tokens: Vec<String> = p
-            .get("expect_tokens")
+        let strs = |k: &str| -> Vec<String> {
+            p.get(k)
+                .and_then(|t| t.as_array())
+                .map(|a| a.iter().map(|x| x.as_str().unwrap_or("").to_string()).collect())
+                .unwrap_or_default()
+        };
+        let inside: Vec<bool> = p
+            .get("inside_annotation")
             .and_then(|t| t.as_array())
-            .map(|a| a.iter().map(|x| x.as_str().unwrap_or("").to_string()).collect())
+            .map(|a| a.iter().map(|x| x.as_bool().unwrap_or(false)).collect())
             .unwrap_or_default();
-        let expect_comments: Vec<String> = p
-            .get("expect_comments")
-            .and_then(|t| t.as_array())
-            .map(|a| a.iter().map(|x| x.as_str().unwrap_or("").to_string()).collect())
-            .unwrap_or_default();
+        let comments = strs("expect_comments");
         let case = OldCase {
-            text,
-            expect_tokens,
-            expect_comments,
+            text: p.get("old_text").and_then(|t| t.as_str()).unwrap_or("").to_string(),
+            expect_tokens: strs("expect_tokens"),
+            expect_comments: comments.iter().enumerate().map(|(i, c)| (c.clone(), inside.get(i).copied().unwrap_or(false))).collect(),
             annotations: 1,
             planted: 0,
-            comment_inside_annotation: false,
             for_line_has_comment_or_multibyte: true,
+            risky_multibyte: false,
+            old_escape: p.get("old_escape").and_then(|t| t.as_bool()).unwrap_or(false),
         };
         decide(&case, &FmtOpts::default(), "explicit", vec!["explicit".into()])
     });
 
+    // files with a place for an annotated loop (a for statement or a statement block)
+    let rewritable: Vec<usize> = (0..corpus.len())
+        .filter(|i| {
+            let src = &corpus[*i].1;
+            pipe::on_fresh_thread(|| pieces_with_sites(src).map(|(_, s)| !s.for_idents.is_empty() || !s.block_braces.is_empty())) == Some(true)
+        })
+        .collect();
+    ctx.note("corpus_files", json!(corpus.len()));
+    ctx.note("corpus_files_with_for_statement_or_statement_block", json!(rewritable.len()));
+    assert!(rewritable.len() > 20, "too few corpus files can hold a for statement");
+
     let n = ctx.scale(3000, 100_000);
-    ctx.run("rewrite", CaseCfg::cases(n).choices(12_000).stack_mb(16), |d| {
-        let (name, src) = &corpus[d.below_usize(corpus.len())];
+    ctx.run("rewrite", CaseCfg::cases(n).choices(12_000).stack_mb(16).shrink_iters(80), |d| {
+        let fi = if d.chance(1, 12) { d.below_usize(corpus.len()) } else { rewritable[d.below_usize(rewritable.len())] };
+        let (name, src) = &corpus[fi];
         let o = FmtOpts::draw(d);
         let Some(case) = gen_old_case(d, src) else {
             return Outcome::skip("corpus file does not tokenise");
@@ -711,11 +916,21 @@ pub fn run(ctx: &Ctx) {
         decide(&case, &o, name, vec![])
     });
 
-    ctx.assume("the in-process pipeline is the one of crates/veryl/src/cmd_migrate.rs (current parser, Migrator::migratable, old parser, Migrator::migrate, current parser, pass 1, formatter, write if different)");
+    ctx.assume("the in-process pipeline is the one of crates/veryl/src/cmd_migrate.rs (current parser, Migrator::migratable, old parser, Migrator::migrate, current parser, pass 1, formatter, write if different); the listed findings were confirmed with the real `veryl migrate`");
     ctx.assume("token sequences of the result are taken with the current parser's token positions plus the text between them; a `,` directly before a closing bracket is the formatter's (C09)");
     ctx.assume("identifiers that became keywords since the previous grammar (`mixin`) cannot occur: the inputs are rewritten from current-syntax files");
     ctx.finish(
         "exploration",
-        "corpus files rewritten into the previous syntax: every for statement gets a generated `: ScalarType`, further for statements are planted into statement blocks, comments (line/block/multi-line/multi-byte) are injected inside and around the annotation and elsewhere, everything re-laid with generated whitespace/CRLF x generated [format] settings; precondition: the old parser accepts; non-trivial = >=1 annotated for and an annotated for shares its line with a comment or multi-byte text; distinct by (settings, text) hash",
+        "corpus files rewritten into the previous syntax: every for statement gets a generated `: ScalarType`, further for statements are planted into statement blocks, comments (line/block/multi-line/multi-byte) are injected around (1 case in 8: also inside) the annotation and elsewhere, everything re-laid with generated whitespace/CRLF x generated [format] settings; precondition: the old parser accepts; non-trivial = >=1 annotated for and a `for` keyword shares its line with a comment or multi-byte text; distinct by (settings, text) hash",
     );
+}
+
+/// Developer aid: the verdicts of both parsers and the result of the command on one file.
+pub fn probe(path: &str) {
+    let x = std::fs::read_to_string(path).expect("read");
+    let md = pipe::metadata(&FmtOpts::default());
+    let old_ok = pipe::on_fresh_thread(|| OldParser::parse(&x, &Path::new("a.veryl")).is_ok());
+    let new_ok = pipe::on_fresh_thread(|| Parser::parse(&x, &Path::new("a.veryl")).is_ok());
+    println!("previous grammar accepts: {old_ok}; current grammar accepts: {new_ok}");
+    println!("{:#?}", pipe::on_fresh_thread(|| migrate_like_cli(&x, &md)));
 }
